@@ -61,18 +61,19 @@ type sentMsg struct {
 }
 
 type scriptConn struct {
-	mu     sync.Mutex
-	reqs   chan *actions.MessageStreamRequest
-	closed chan struct{}
-	once   sync.Once
-	sent   []sentMsg           // every Send, in order
-	out    map[uuid.UUID]int   // sent and not yet acked/nacked by the client (id -> size)
-	order  []uuid.UUID         // outstanding ids, oldest first
-	limit  actions.FlowControl // the limits in force
-	bad    string              // first bound violation seen at a Send
-	dup    string              // a message handed out again while it was outstanding and its lease had not lapsed
-	ctl    *Ctl
-	greqs  chan *pubsubpb.StreamingPullRequest // gRPC mode: what the client sends
+	mu       sync.Mutex
+	reqs     chan *actions.MessageStreamRequest
+	closed   chan struct{}
+	once     sync.Once
+	sent     []sentMsg           // every Send, in order
+	out      map[uuid.UUID]int   // sent and not yet acked/nacked by the client (id -> size)
+	order    []uuid.UUID         // outstanding ids, oldest first
+	limit    actions.FlowControl // the limits in force
+	bad      string              // first bound violation seen at a Send
+	dup      string              // a message handed out again while it was outstanding and its lease had not lapsed
+	lastSend map[uuid.UUID]time.Time
+	ctl      *Ctl
+	greqs    chan *pubsubpb.StreamingPullRequest // gRPC mode: what the client sends
 }
 
 func (c *scriptConn) Close() error { c.once.Do(func() { close(c.closed) }); return nil }
@@ -136,9 +137,14 @@ func (c *scriptConn) record(id uuid.UUID, sz int) {
 	c.sent = append(c.sent, sentMsg{d.ID, sz})
 	if _, dup := c.out[d.ID]; !dup {
 		c.order = append(c.order, d.ID)
-	} else if c.dup == "" {
-		c.dup = fmt.Sprintf("delivery %s was handed out again on the stream while it was still outstanding (no nack, no lapse of its lease)", d.ID)
+	} else if c.dup == "" && time.Since(c.lastSend[d.ID]) < 10*time.Second {
+		// (the subscriptions of these runs have the default retry policy: a lease lasts at least 10 s)
+		c.dup = fmt.Sprintf("delivery %s was handed out again on the stream %s after it was sent, while it was still outstanding (no nack, lease not lapsed)", d.ID, time.Since(c.lastSend[d.ID]))
 	}
+	if c.lastSend == nil {
+		c.lastSend = map[uuid.UUID]time.Time{}
+	}
+	c.lastSend[d.ID] = time.Now()
 	c.out[d.ID] = sz
 	c.ctl.Mark("send " + d.ID.String())
 	n, b := len(c.out), 0
